@@ -8,6 +8,7 @@ import OjgVerif.Asm.LemmasLayout
 import OjgVerif.Asm.LemmasText
 import OjgVerif.Asm.LemmasSort
 import OjgVerif.Gen.AsmFacts
+import OjgVerif.Gen.AsmShapes
 /-! # C20 — assembly plans evaluate totally, deterministically and as documented
 
 Over the model of `Asm/Model.lean` (heap of shared cells, the modelled functions, simple paths) and the
@@ -99,6 +100,36 @@ that a reused plan behaves like a fresh one on ANOTHER root is oracle (b') of th
 theorem plan_args_written_only_when_built :
     (Gen.AsmFacts.argWrites.map (·.1)).all (fun f => ["Fn.compile", "NewPlan", "evalValue"].contains f) = true ∧
     Gen.AsmFacts.argWrites ≠ [] := by decide
+
+/-- the records of the text and conversion functions, read off the model's dispatch table -/
+def scalarRecords : List (Bytes × ScalarFn) :=
+  fnTable.filterMap (fun p => match p.2 with | .scalar g => some (p.1, g) | _ => none)
+
+/-- the largest accepted argument count (up to 6) -/
+def recMaxCount (g : ScalarFn) : Nat := ((List.range 7).filter g.arity).foldl max 0
+
+/-- the indexes of the arguments in the order the record evaluates them, for a call with all of them -/
+def recOrder (g : ScalarFn) : List Nat :=
+  ((if g.swap then (List.range (recMaxCount g)).reverse else List.range (recMaxCount g)).take (g.wants (recMaxCount g)).length)
+
+/-- what the extractor read off the Eval function registered under `f`: has a guard, accepted counts, order -/
+def shapeOf (f : Bytes) : Option (Bool × List Nat × List Nat) :=
+  (evalIdent f).bind (fun id => (Gen.AsmShapes.evalShapes.find? (fun r => r.1 == id)).map (·.2))
+
+/-- SOURCE TIE for the functions modelled in round 3 (re-checked on every run against Gen/AsmShapes.lean, which the
+extractor regenerates from asm/*.go): for each of the eleven records, the Go function registered under that name
+starts with an arity guard that lets through exactly the argument counts the record accepts (0..6 tried), and
+evaluates `args[i]` in exactly the order of the record (`string` its format first); `reverse`, `append`, `include`
+(second argument first) and `sort` (only its first argument is evaluated) likewise. A changed guard or a reordered
+evaluation breaks this theorem (a tripwire over syntactic shapes — what the functions compute with the values is
+the correspondence run). -/
+theorem text_fns_source_shape :
+    scalarRecords.length = 11 ∧
+    scalarRecords.all (fun p => shapeOf p.1 == some (true, (List.range 7).filter p.2.arity, recOrder p.2)) = true ∧
+    shapeOf b!"reverse" = some (true, [1], [0]) ∧
+    shapeOf b!"append" = some (true, [2], [0, 1]) ∧
+    shapeOf b!"include" = some (true, [2], [1, 0]) ∧
+    shapeOf b!"sort" = some (true, [2], [0]) := by decide
 
 /-! ## 2. totality
 
@@ -956,6 +987,16 @@ theorem evalFn_describe_text (env : Env) (ev : Arg → Val → M Val) (root at_ 
   · simp [evalFn, fnKind, fnTable, lookupKind, evalKind, Spec.describe, fnAppend_spec _ h args vs hp]
   · simp [evalFn, fnKind, fnTable, lookupKind, evalKind, Spec.describe, fnInclude_spec _ h args vs hp]
 
+/-- all 51 functions whose arguments are evaluated values at once, for the code as it is: the evaluator returns what
+`Spec.describe` says, for arguments of every syntactic kind that evaluate without effect -/
+theorem evalFn_describe_all (ord : Option MapOrd) (ev : Arg → Val → M Val) (root at_ : Val) (h : Heap) (f : Bytes)
+    (args : List Arg) (vs : List Val)
+    (hp : PureArgs (fun a => ev a at_) h args vs) (hf : f ∈ eagerFns ++ textFns) :
+    evalFn ⟨Dev.current, ord⟩ ev root at_ f args h = Spec.describe Dev.current f vs h := by
+  rcases List.mem_append.mp hf with h1 | h1
+  · exact evalFn_describe_current ord ev root at_ h f args vs hp h1
+  · exact evalFn_describe_text ⟨Dev.current, ord⟩ ev root at_ h f args vs hp h1
+
 /-- an instance of the hypotheses: `[substr $.src.s 1 2]` with `$.src.s = "hello"` is `"el"` -/
 example :
     let h : Heap := [Cell.map [(b!"src", .mref 1)], Cell.map [(b!"s", .str b!"hello")]]
@@ -1074,6 +1115,19 @@ theorem float_spec (dev : Dev) (i : Int) (x : Flt) (h : Heap) :
     Spec.describe dev b!"float" [.flt x] h = (.ok (.flt x), h) ∧
     Spec.describe dev b!"float" [.mref 0] h = (.ok .null, h) := by
   refine ⟨?_, ?_, ?_⟩ <;> simp [Spec.describe, Spec.scalar, Spec.acceptAll, sfFloat, Want.accept, Tree.toVal]
+
+/-- `float` of a decimal text is the binary64 NEAREST to its exact value (`strconv.ParseFloat`): 0.1 is
+3602879701896397·2^-55, 2^53+1 rounds to even, 1e23 is 2980232238769531·2^25 (not the neighbour a two-step rounding gives), a text that is not
+a number gives nil (so does a text beyond the largest float; an underflow gives 0 — compared with the implementation by the
+text box of the run, the kernel does not evaluate 10^400) -/
+theorem float_text_spec :
+    (match floatOfText b!"0.1" with | .ok (.flt f) => Flt.eq f (.fin false 3602879701896397 (-55)) | _ => false) = true ∧
+    (match floatOfText b!"9007199254740993" with | .ok (.flt f) => Flt.eq f (.fin false 9007199254740992 0) | _ => false) = true ∧
+    (match floatOfText b!"1e23" with | .ok (.flt f) => Flt.eq f (.fin false 2980232238769531 25) | _ => false) = true ∧
+    (match floatOfText b!"-0.0" with | .ok (.flt f) => f.isZero | _ => false) = true ∧
+    (match floatOfText b!"1.5.2" with | .ok .null => true | _ => false) = true ∧
+    (match floatOfText b!"abc" with | .ok .null => true | _ => false) = true ∧
+    (match floatOfText b!"0x10" with | .error .unmodelled => true | _ => false) = true := by decide
 
 /-- `string` without a format: `%d` of an integer, the string itself, `%v` of nil and booleans -/
 theorem string_spec (dev : Dev) (i : Int) (s : Bytes) (h : Heap) :
